@@ -107,6 +107,8 @@ type Path struct {
 	trapStrings   []value
 	trapsExpected bool
 	sched         *sched
+	mustTerminate string
+	stepBudget    int
 }
 
 func (p *Path) replaying() bool { return len(p.trail) < len(p.prefix) }
